@@ -10,6 +10,7 @@ import (
 	"strconv"
 	"sync"
 	"sync/atomic"
+	"time"
 
 	logutil "github.com/boz/go-logutil"
 	"github.com/boz/kcache"
@@ -87,10 +88,22 @@ func mkPod(k string, v, l int) *corev1.Pod {
 	if !ok {
 		panic("unknown model key " + k)
 	}
-	return &corev1.Pod{ObjectMeta: metav1.ObjectMeta{
+	p := &corev1.Pod{ObjectMeta: metav1.ObjectMeta{
 		Namespace: nn[0], Name: nn[1], ResourceVersion: verString(v),
 		Labels: map[string]string{"x": strconv.Itoa(l)},
 	}}
+	// metadata the cache semantics do not depend on: an object that is being deleted gracefully still
+	// exists (it carries a deletion timestamp and is reported by Modified frames), generations, finalizers
+	switch v % 5 {
+	case 2:
+		t := metav1.NewTime(time.Unix(1500000000+int64(v), 0))
+		p.DeletionTimestamp = &t
+		p.Finalizers = []string{"verif/hold"}
+	case 3:
+		p.Generation = int64(v)
+		p.Annotations = map[string]string{"note": k}
+	}
+	return p
 }
 
 // MObj is the model view (key, version, label) of a real object.
